@@ -109,7 +109,7 @@ C13_OBS = [
     ob("O13.1b", DIR + "dir_remove_all_rmdir_ok", "... unlink fails (any errno), rmdir succeeds: unlinkat(0) then unlinkat(AT_REMOVEDIR), Ok", stubs=RA_STUBS, covers_may_be_unsat=["unlinked", "scanned", "scan open failed"], cost=5),
     ob("O13.3a", DIR + "dir_remove_inode_contract", "remove_inode(dir,name) real body, arbitrary kernel: unlinkat(0) then unlinkat(AT_REMOVEDIR) on the same (dir,name); Ok if either succeeds; else the errno reported is rmdir's unless that is ENOTDIR (then unlink's)", stubs=["syscalls::unlinkat"], cost=6),
     ob("O13.3d", DIR + "dir_ignore_enoent_all_errnos", "ignore_enoent for EVERY errno 1..=133 in OsError / RawOsError / wrapped form and for non-errno classes: Ok iff the input was Ok or its errno is ENOENT", cost=2),
-    ob("O13.3e", DIR + "dir_scan_open_flags", "utils::remove_all, every non-refused name <= L, removal failed with EACCES, the scan open SUCCEEDS (path cut at the listing): the slow path is taken, the open is openat(dir, name) with O_DIRECTORY|O_NOFOLLOW (no O_CREAT/O_TRUNC) and the listing is read from exactly that descriptor", stubs=["remove_inode", "syscalls::openat_follow", "Dir::read_from"], cost=8),
+    ob("O13.3e", DIR + "dir_scan_open_flags", "utils::remove_all, every non-refused name <= L, removal failed with EACCES, the scan open SUCCEEDS (path cut at the listing): the slow path is taken, the open is openat(dir, name) with O_DIRECTORY|O_NOFOLLOW (no O_CREAT/O_TRUNC) and the listing is read from exactly that descriptor", stubs=["remove_inode", "syscalls::openat_follow", "Dir::read_from"], tiers=("thorough",), cost=8),
     ob("O13.3b", DIR + "dir_scan_open_fails", "utils::remove_all, every non-refused name <= L, removal failed with EACCES and the directory-scan open fails with EACCES (remove_inode replaced by its contract O13.3a): the open is openat(dir,name) with O_DIRECTORY|O_NOFOLLOW, the failure is REPORTED (Ok only for ENOENT), exactly two steps", stubs=["remove_inode", "syscalls::openat_follow", "Dir::read_from"], covers_may_be_unsat=["listing failed", "directory vanished"], tiers=("thorough",), timeout={"thorough": 5400}, mem_gb=24, cost=20),
     ob("O13.3c", DIR + "dir_scan_listing", "... removal failed with ENOTEMPTY, scan open succeeds, listing fails with an arbitrary errno: ENOENT => one more removal attempt on the same (dir,name), else that errno; sub-directory fd closed", stubs=["remove_inode", "syscalls::openat_follow", "Dir::read_from"], covers_may_be_unsat=["scan open failed"], tiers=("thorough",), timeout={"thorough": 5400}, mem_gb=30, cost=6),
     ob("O13.1f", DIR + "dir_remove_all_scan_enotempty", "... unlink and rmdir fail with ENOTEMPTY (non-empty directory), scan open succeeds: the open is openat(dir, name, O_DIRECTORY|O_NOFOLLOW), listing failure is reported, sub-directory fd closed [monolithic: no contract stub]", stubs=RA_STUBS, covers_may_be_unsat=["unlinked", "rmdir-ed", "refused", "scan open failed"], tiers=("thorough",), timeout={"thorough": 5400}, mem_gb=30, cost=6),
@@ -264,7 +264,7 @@ PROPERTIES = {
     "C13": {
         "explanation": "C13 (sequential part): utils::remove_all is executed for every name of up to L bytes against an arbitrary kernel. "
                        "Decided: which names are refused before any syscall ('.', '..', '', anything with '/'), the fast path unlinkat -> rmdir with its error selection, "
-                       "ignore_enoent for every errno, the slow path up to the directory-scan open (O_DIRECTORY|O_NOFOLLOW on (dir,name), failure reported, ENOENT tolerated), "
+                       "ignore_enoent for every errno, [thorough tier only: 9-20 min per query] the slow path up to the directory-scan open (O_DIRECTORY|O_NOFOLLOW on (dir,name), failure reported, ENOENT tolerated), "
                        "and that Root::remove_all hands exactly (resolved parent, final name) to it.",
         "outside": "everything behind a SUCCESSFUL scan open (listing, recursion, final retry: attempted tier, > 30 GB); that unlinkat on a symlink does not follow it (kernel); concurrent remove_all; names longer than L",
         "assumptions": ["Dir::read_from always fails with an arbitrary errno", "kernel K"],
